@@ -453,10 +453,15 @@ static int _yr_ac_find_suitable_transition_table_slot(
 
     size_t bm_len_incr = YR_BITMASK_SIZE(257) * sizeof(YR_BITMASK);
 
-    automaton->bitmask = yr_realloc(automaton->bitmask, bm_len + bm_len_incr);
+    // Keep the old bitmask if it can't be enlarged, it is still owned (and
+    // eventually freed) by the automaton.
+    YR_BITMASK* new_bitmask = yr_realloc(
+        automaton->bitmask, bm_len + bm_len_incr);
 
-    if (automaton->bitmask == NULL)
+    if (new_bitmask == NULL)
       return ERROR_INSUFFICIENT_MEMORY;
+
+    automaton->bitmask = new_bitmask;
 
     memset((uint8_t*) automaton->bitmask + bm_len, 0, bm_len_incr);
 
